@@ -195,12 +195,43 @@ def _build_md_value(rec, share=None):
     raise ValueError(t)
 
 
+def _other_number(r, v):
+    """a number of ANOTHER kind than v (int <-> float, bool / complex -> a fractional float)"""
+    if v["t"] == "float":
+        return {"t": "int", "v": r.choice([2, -3, 7, 2**40])}
+    return {"t": "float", "v": f2hex(r.choice([0.5, -2.75, 1e-3, 0.1]))}
+
+
+def echo_keys(r, items, p=0.45):
+    """DIRECTED coincidence: a nested dict REUSES a key of the level that encloses it, for a number of a different kind
+    (`{'scale': 2, 'calibration': {'scale': 0.5}}`) — anything that remembers something per bare key name, instead of per
+    place in the nesting, confuses the two (seen only when the object that was read is saved again)"""
+    extra = []
+    for k, v in items:
+        if v["t"] != "dict":
+            continue
+        echo_keys(r, v["items"], p)
+        if r.random() >= p:
+            continue
+        inner = {k2 for k2, _ in v["items"]}
+        nums = [(k2, v2) for k2, v2 in items + extra if v2["t"] in ("int", "float", "bool", "complex") and k2 not in inner]
+        if nums:
+            k2, v2 = r.choice(nums)
+            v["items"].append([k2, _other_number(r, v2)])
+        elif "scale" not in inner and all(k2 != "scale" for k2, _ in items + extra):
+            outer = {"t": "int", "v": 2} if r.random() < 0.5 else {"t": "float", "v": f2hex(0.25)}
+            extra.append(["scale", outer])
+            v["items"].append(["scale", _other_number(r, outer)])
+    items.extend(extra)
+
+
 def gen_metadata(r, used, maxdepth=2, nmax=4):
     name = gen_name(r, used, odd=0.1)
     used_k = set()
     items = []
     for _ in range(r.randrange(0, nmax)):
         items.append([gen_name(r, used_k, odd=0.2), gen_md_value(r, 1, maxdepth)])
+    echo_keys(r, items)
     return {"name": name, "items": items}
 
 
